@@ -37,3 +37,60 @@ package command
 //@                    call Add(_, 1) ; go startScanEngine$3{errc: bind_ec, logger: bind_lg2} ; call Wait(_) ; call cancel()]
 //@                   when c1 == c2 && en == engine && lg == conf.logger && dn == done && cf2 == cf && cfg == conf && ec == errc && lg2 == conf.logger && ret == nil -> exit
 
+
+// ---------------------------------------------------------------------------------------------
+// C01 / C03: port-range chunking. Without port ranges (file of ip/port pairs) exactly one engine runs on the
+// configuration as given. Otherwise engine k runs on a copy of the configuration whose port ranges are
+// conf.Ports[200k : min(200k+200, len)] (same order, 1..200 ranges) and that is otherwise identical, until all
+// ranges are consumed or an engine fails.
+//@ func startPortScanEngine
+//@   props C01 C03 C15 C16
+//@   observe startPacketScanEngine
+//@   entry row pairs:  [call startPacketScanEngine(ctx, conf) as (e)] when len(conf.scanRange.Ports) == 0 && ret == e -> exit
+//@   entry row ranges: [] when len(conf.scanRange.Ports) > 0 -> loop 0
+//@   loop 0 invariant step: 0 <= i && i % 200 == 0
+//@   loop 0 row done:  [] when i >= len(conf.scanRange.Ports) && ret == nil -> exit
+//@   loop 0 row chunk: [call startPacketScanEngine(ctx, bind_nc) as (e)]
+//@                        when pre(i) < len(conf.scanRange.Ports) && i == pre(i) + 200 && e == nil && fresh(nc)
+//@                          && (pre(i) + 200 <= len(conf.scanRange.Ports) ==> len(nc.scanRange.Ports) == 200)
+//@                          && (pre(i) + 200 > len(conf.scanRange.Ports) ==> len(nc.scanRange.Ports) == len(conf.scanRange.Ports) - pre(i))
+//@                          && (forall k int :: 0 <= k && k < len(nc.scanRange.Ports) ==> nc.scanRange.Ports[k] == conf.scanRange.Ports[pre(i) + k])
+//@                          && nc.scanRange.DstSubnet == conf.scanRange.DstSubnet && nc.scanRange.Interface == conf.scanRange.Interface
+//@                          && nc.scanRange.SrcIP == conf.scanRange.SrcIP && nc.scanRange.SrcMAC == conf.scanRange.SrcMAC
+//@                          && nc.logger == conf.logger && nc.exitDelay == conf.exitDelay && nc.scanMethod == conf.scanMethod && nc.bpfFilter == conf.bpfFilter
+//@                          && nc.rateCount == conf.rateCount && nc.rateWindow == conf.rateWindow && nc.vpnMode == conf.vpnMode -> continue
+//@   loop 0 row fail:  [call startPacketScanEngine(ctx, bind_nc) as (e)] when e != nil && ret == e -> exit
+
+// ---------------------------------------------------------------------------------------------
+// C03 / C15 / C01: one packet-scan engine. The capture filter installed is bpfFilter applied to THIS configuration's
+// range (the chunk's ports); with rateCount > 0 the engine writes through a limiter built from exactly
+// (rateCount, Per(rateWindow)) and nothing else, otherwise straight to the packet source; the engine gets the
+// configured scan method; startScanEngine runs on this configuration's engine config; the source is closed.
+//@ func startPacketScanEngine
+//@   props C03 C15 C01 C16
+//@   observe bpfFilter, ratelimit.Per, ratelimit.New
+//@   opaque afpacket.NewPacketSource, (*Source).Close, (*Source).SetBPFFilter, packet.NewRateLimitReadWriter, scan.SetupPacketEngine, startScanEngine
+//@   entry row nosource:  [call afpacket.NewPacketSource(conf.scanRange.Interface.Name, conf.vpnMode) as (ps, e)] when e != nil && ret == e -> exit
+//@   entry row nofilter:  [call afpacket.NewPacketSource(conf.scanRange.Interface.Name, conf.vpnMode) as (ps, e) ; call bpfFilter(bind_r) as (f, n) ; call SetBPFFilter(ps, f, n) as (fe) ; call Close(ps)]
+//@                           when e == nil && r == addr(conf.scanRange) && fe != nil && ret != nil -> exit
+//@   entry row unlimited: [call afpacket.NewPacketSource(conf.scanRange.Interface.Name, conf.vpnMode) as (ps, e) ; call bpfFilter(bind_r) as (f, n) ; call SetBPFFilter(ps, f, n) as (fe) ;
+//@                         call scan.SetupPacketEngine(bind_rw, conf.scanMethod) as (eng) ; call startScanEngine(ctx, eng, bind_ec) as (se) ; call Close(ps)]
+//@                           when e == nil && r == addr(conf.scanRange) && fe == nil && conf.rateCount <= 0 && isptr(rw, afpacket.Source) && asptr(rw, afpacket.Source) == ps
+//@                             && ec == addr(conf.engineConfig) && ret == se -> exit
+//@   entry row limited:   [call afpacket.NewPacketSource(conf.scanRange.Interface.Name, conf.vpnMode) as (ps, e) ; call bpfFilter(bind_r) as (f, n) ; call SetBPFFilter(ps, f, n) as (fe) ;
+//@                         call ratelimit.Per(conf.rateWindow) as (per) ; call ratelimit.New(conf.rateCount, bind_opts) as (lim) ; call packet.NewRateLimitReadWriter(bind_d, lim) as (lrw) ;
+//@                         call scan.SetupPacketEngine(lrw, conf.scanMethod) as (eng) ; call startScanEngine(ctx, eng, bind_ec) as (se) ; call Close(ps)]
+//@                           when e == nil && r == addr(conf.scanRange) && fe == nil && conf.rateCount > 0 && len(opts) == 1 && opts[0] == per && isptr(d, afpacket.Source) && asptr(d, afpacket.Source) == ps
+//@                             && ec == addr(conf.engineConfig) && ret == se -> exit
+
+// application scans: with rateCount > 0 the scanner is wrapped by a limiter built from exactly
+// (rateCount, Per(rateWindow)); the engine gets that scanner, the target generator and the configured worker count
+//@ func (*genericScanCmdOpts).newScanEngine
+//@   props C15 C08
+//@   observe ratelimit.Per, ratelimit.New
+//@   opaque scan.NewRateLimitScanner, scan.NewResultChan, newIPPortGenerator, scan.WithScanWorkerCount, scan.NewScanEngine
+//@   entry row unlimited: [call scan.NewResultChan(ctx, _) as (rc) ; call newIPPortGenerator(o) as (gen) ; call scan.WithScanWorkerCount(o.workers) as (wo) ; call scan.NewScanEngine(gen, scanner, rc, bind_os) as (eng)]
+//@                           when o.rateCount <= 0 && len(os) == 1 && os[0] == wo && ret == eng -> exit
+//@   entry row limited:   [call ratelimit.Per(o.rateWindow) as (per) ; call ratelimit.New(o.rateCount, bind_opts) as (lim) ; call scan.NewRateLimitScanner(scanner, lim) as (ls) ;
+//@                         call scan.NewResultChan(ctx, _) as (rc) ; call newIPPortGenerator(o) as (gen) ; call scan.WithScanWorkerCount(o.workers) as (wo) ; call scan.NewScanEngine(gen, ls, rc, bind_os) as (eng)]
+//@                           when o.rateCount > 0 && len(opts) == 1 && opts[0] == per && len(os) == 1 && os[0] == wo && ret == eng -> exit
